@@ -12,6 +12,7 @@ from buidl import script as bscript
 from buidl.script import Script
 from buidl.tx import Tx, TxIn
 from buidl.witness import Witness
+from vp.core import ImplTimeout      # the engine's watchdog: must never be swallowed by an `except Exception` here
 
 PID = "C07"
 RULE = ("Single op codes: every implemented op code (and a set of unknown ones) x every stack over the alphabet "
@@ -23,14 +24,20 @@ RULE = ("Single op codes: every implemented op code (and a set of unknown ones) 
         "locktime/operand around 500000000, sequence/operand bits 16, 22 and 31, MAX values, versions 0,1,2,3,2^32-1. "
         "Script.evaluate is run with allow_p2sh=allow_witness=False (no byte pattern special-cased) for every program and "
         "additionally with the default flags for every fifth program, all fixed programs and a stream salted with the "
-        "P2SH / witness-program shapes (the model then answers 2 = special case entered, the spec OutOfScope).")
+        "P2SH / witness-program shapes (the model then answers 2 = special case entered, the spec OutOfScope). "
+        "Failure mode: where consensus fails an op code or rejects a script, the library must RETURN False; an exception "
+        "counts as a violation unless it is the KeyError of the table look-up for a command that is no implemented op code "
+        "(unknown / disabled op codes, ELSE / ENDIF outside a conditional). Every op code as a whole script at every stack "
+        "depth 0..arity+1; minimal pushes -4..20; Locktime / Sequence class API on all pairs of boundary values; the two "
+        "dispatch tables compared entry by entry.")
 TRUSTED = ["hashlib (ripemd160, sha1, sha256) — the hash op codes call the same hashlib through the oracle; the "
            "theorems quantify over arbitrary hash functions",
            "Spec/Consensus.v is a hand transcription of Bitcoin Core's EvalScript for the implemented op code set "
            "(legacy rules, CLTV and CSV active, policy flags off); it is not itself checked against Bitcoin Core",
            "harness instrumentation: a sentinel witness object and a stub for buidl.script.encode_varstr detect when "
            "Script.evaluate enters its P2SH / witness special cases (reported as outcome 2)"]
-ASSUMPTIONS = ["the transaction context is a Tx with 1..3 TxIns (the evaluated one at a varying index): 0 <= locktime, sequence < 2^32, 0 <= version < 2^32",
+ASSUMPTIONS = ["the transaction context is a Tx with 1..3 TxIns (the evaluated one at a varying index, with the sentinel witness, no "
+               "witness or a real witness): 0 <= locktime, sequence < 2^32, 0 <= version < 2^32",
                "the signature op codes 172-175/186 are outside the op code set of this property (C06 covers them)",
                "consensus resource limits (520-byte pushes, 10000-byte scripts, 201 op codes, 1000 stack items) are "
                "outside the modelled semantics: the spec answers OutOfScope for pushes > 520 bytes and scripts > 10000 "
@@ -73,12 +80,15 @@ def _raise_special(*a, **k):
     raise _Special()
 
 
-def mk_tx(lt, sq, ver):
+def mk_tx(lt, sq, ver, wit=0):
     """The transaction context.  Consensus looks only at nLockTime, nVersion and the nSequence of the input being
     spent, so the context is completed (deterministically from the three values) to a transaction with 1..3 inputs
     in which the evaluated input sits at index tx.verif_idx and the OTHER inputs carry sequences of the other
     classes (final / non-final, disable bit, time/height type): a rule that looks at another input or at all of them
-    shows up as a disagreement with the model, which is given (lt, sq, ver) only."""
+    shows up as a disagreement with the model, which is given (lt, sq, ver) only.
+    wit: 0 the sentinel witness (detects the witness special cases), 1 no witness at all (the TxIn default, an
+    empty Witness: Script.evaluate then works with witness = None), 2 a real non-empty witness.  1 and 2 are
+    used only with allow_witness=False, where the witness is never looked at."""
     h = (lt * 2654435761 + sq * 40503 + ver * 97 + 12345) & 0xFFFFFFFF
     k = 1 + (h >> 3) % 3
     idx = (h >> 7) % k
@@ -89,7 +99,10 @@ def mk_tx(lt, sq, ver):
     for j in range(k):
         s_j = sq if j == idx else others[((h >> 11) + j) % len(others)]
         txin = TxIn(bytes([j]) * 32, j, sequence=s_j)
-        txin.witness = _SentinelWitness()
+        if wit == 0 or j != idx:
+            txin.witness = _SentinelWitness()
+        elif wit == 2:
+            txin.witness = Witness([b"\x01", b"", bytes(range(33))])
         ins.append(txin)
     tx = Tx(ver, ins, [], lt)
     tx.verif_idx = idx
@@ -124,19 +137,56 @@ def i_op_if(neg, st, items):
     return [stack, its]
 
 
-def run_evaluate(cmds, lt, sq, ver, ap=0, aw=0):
-    """Script.evaluate with allow_p2sh=ap, allow_witness=aw: 1 True, 0 False or exception, 2 a special case was entered"""
-    tx = mk_tx(lt, sq, ver)
+def table_miss(e):
+    """the one exception the interpreter raises by construction: the look-up of a command that is not in its op
+    code table (disabled / reserved / unknown op codes, OP_ELSE / OP_ENDIF met outside a conditional)"""
+    return (isinstance(e, KeyError) and len(e.args) == 1 and isinstance(e.args[0], int)
+            and not isinstance(e.args[0], bool) and e.args[0] not in bop.OP_CODE_FUNCTIONS)
+
+
+def eval_obj(script, tx, ap, aw):
+    """Script.evaluate on GIVEN objects -> (outcome, exc): outcome 1 True, 0 False or exception, 2 a special case
+    was entered; exc names the exception when the rejection was an exception other than a table miss"""
     saved = bscript.encode_varstr
     bscript.encode_varstr = _raise_special
     try:
-        return 1 if Script(list(cmds)).evaluate(tx, tx.verif_idx, allow_p2sh=bool(ap), allow_witness=bool(aw)) else 0
+        return (1 if script.evaluate(tx, tx.verif_idx, allow_p2sh=bool(ap), allow_witness=bool(aw)) else 0), None
     except _Special:
-        return 2
-    except Exception:  # noqa
-        return 0
+        return 2, None
+    except ImplTimeout:
+        raise
+    except Exception as e:  # noqa
+        return 0, (None if table_miss(e) else type(e).__name__)
     finally:
         bscript.encode_varstr = saved
+
+
+def eval_outcome(cmds, lt, sq, ver, ap=0, aw=0):
+    # with allow_witness off the witness of the input is never used: vary it (sentinel / none / real)
+    wit = 0 if aw else (len(cmds) + lt + sq + ver) % 3
+    tx = mk_tx(lt, sq, ver, wit)
+    return eval_obj(Script(list(cmds)), tx, ap, aw)
+
+
+def run_evaluate(cmds, lt, sq, ver, ap=0, aw=0):
+    """Script.evaluate with allow_p2sh=ap, allow_witness=aw: 1 True, 0 False or exception, 2 a special case was entered"""
+    return eval_outcome(cmds, lt, sq, ver, ap, aw)[0]
+
+
+RAISES = ("the interpreter reports failure by returning False (Script.evaluate does not catch exceptions, "
+          "Tx.verify_input passes them on)")
+
+
+def op_outcome(o, st, alt, tx):
+    """one op code function on copies of the stacks -> (new [stack, alt] or None for failure, exc)"""
+    stack, a = list(st), list(alt)
+    try:
+        ok = call_op(o, stack, a, tx)
+    except ImplTimeout:
+        raise
+    except Exception as e:  # noqa
+        return None, (None if table_miss(e) else type(e).__name__)
+    return ([stack, a] if ok else None), None
 
 
 def ref_encode_num(n):
@@ -153,6 +203,18 @@ def ref_encode_num(n):
     elif neg:
         out[-1] |= 0x80
     return bytes(out)
+
+
+def ref_minimal_push(n):
+    """the shortest command that pushes the script number n: OP_0 / OP_1NEGATE / OP_1..OP_16 for -1..16, else the
+    data push of its serialisation (written independently of buidl.op.encode_minimal_num)"""
+    if n == 0:
+        return 0
+    if n == -1:
+        return 79
+    if 1 <= n <= 16:
+        return 80 + n
+    return ref_encode_num(n)
 
 
 IMPL = {
@@ -236,21 +298,22 @@ def p_codec_bytes(e):
 
 
 def p_op(o, st, alt, lt, sq, ver):
-    """one op code on the implementation == the consensus step (skip OutOfScope)"""
+    """one op code on the implementation == the consensus step (skip OutOfScope); a failure is `return False`"""
     want = spec("spec_op", o, st, alt, lt, sq, ver)
     if want == 2:
         return None
-    try:
-        got = i_op(o, st, alt, lt, sq, ver)
-    except Exception:  # noqa
-        got = None
+    got, exc = op_outcome(o, st, alt, mk_tx(lt, sq, ver))
     from vp.sexp import ERR
     if want is ERR or want == ERR:
         if got is None:
+            if exc:
+                return (f"op code {o} raises {exc} on stack {[x.hex() for x in st]} where consensus fails the "
+                        f"script: {RAISES}")
             return None
         return f"op code {o}: consensus fails, the library succeeds with stack {[x.hex() for x in got[0]]}"
     if got is None:
-        return f"op code {o}: the library fails, consensus gives stack {[x.hex() for x in want[0]]}"
+        return (f"op code {o}: the library fails{' (raises ' + exc + ')' if exc else ''}, consensus gives stack "
+                f"{[x.hex() for x in want[0]]}")
     if got != want:
         return (f"op code {o}: library stack/alt {[x.hex() for x in got[0]]}/{[x.hex() for x in got[1]]}, consensus "
                 f"{[x.hex() for x in want[0]]}/{[x.hex() for x in want[1]]}")
@@ -259,15 +322,42 @@ def p_op(o, st, alt, lt, sq, ver):
 
 def p_eval(cmds, lt, sq, ver, ap=0, aw=0):
     """Script.evaluate(allow_p2sh=ap, allow_witness=aw) accepts exactly when the consensus spec accepts (skip
-    OutOfScope; with the flags set the spec excludes the byte patterns the library then special-cases)"""
+    OutOfScope; with the flags set the spec excludes the byte patterns the library then special-cases); a
+    rejection is `return False` (or the table miss on a command that is no implemented op code)"""
     want = spec("spec_eval", cmds, lt, sq, ver, ap, aw)
     if want == 2:
         return None
-    got = run_evaluate(cmds, lt, sq, ver, ap, aw)
+    got, exc = eval_outcome(cmds, lt, sq, ver, ap, aw)
     if got == 2:
         return "Script.evaluate entered a P2SH/witness special case on a script the spec does not exclude"
     if got != want:
-        return f"Script.evaluate {'accepts' if got else 'rejects'}, consensus {'accepts' if want else 'rejects'}"
+        return (f"Script.evaluate {'accepts' if got else 'rejects'}{' (raises ' + exc + ')' if exc else ''}, "
+                f"consensus {'accepts' if want else 'rejects'}")
+    if exc:
+        return f"Script.evaluate raises {exc} on a script that consensus rejects: {RAISES}"
+    return None
+
+
+def p_eval_defaults(cmds, lt, sq, ver):
+    """Script(cmds).evaluate(tx, i) — the call of the property statement, no flags given — is the evaluation with
+    the P2SH and the witness rule both enabled"""
+    tx = mk_tx(lt, sq, ver)
+    saved = bscript.encode_varstr
+    bscript.encode_varstr = _raise_special
+    try:
+        got = 1 if Script(list(cmds)).evaluate(tx, tx.verif_idx) else 0
+    except _Special:
+        got = 2
+    except ImplTimeout:
+        raise
+    except Exception:  # noqa
+        got = 0
+    finally:
+        bscript.encode_varstr = saved
+    want = run_evaluate(cmds, lt, sq, ver, 1, 1)
+    if got != want:
+        return (f"evaluate(tx, i) gives {got}, evaluate(tx, i, allow_p2sh=True, allow_witness=True) gives {want} "
+                f"(1 accept, 0 reject, 2 special case entered)")
     return None
 
 
@@ -281,20 +371,6 @@ def _set_ctx(tx, lt, sq, ver):
     tx.locktime = Locktime(lt)
     tx.tx_ins[tx.verif_idx].sequence = Sequence(sq)
     tx.version = ver
-
-
-def _eval_obj(script, tx, ap, aw):
-    """run_evaluate on GIVEN objects"""
-    saved = bscript.encode_varstr
-    bscript.encode_varstr = _raise_special
-    try:
-        return 1 if script.evaluate(tx, tx.verif_idx, allow_p2sh=bool(ap), allow_witness=bool(aw)) else 0
-    except _Special:
-        return 2
-    except Exception:  # noqa
-        return 0
-    finally:
-        bscript.encode_varstr = saved
 
 
 def _snap(cmds):
@@ -315,7 +391,7 @@ def p_eval_reuse(cmds, ctxs, ap=0, aw=0):
             t = mk_tx(lt, sq, ver)
         else:
             _set_ctx(t, lt, sq, ver)
-        got = _eval_obj(s, t, ap, aw)
+        got, exc = eval_obj(s, t, ap, aw)
         if _snap(s.commands) != _snap(cmds):
             return f"call {k}: Script.evaluate changed the Script's own command list"
         fresh = run_evaluate(cmds, lt, sq, ver, ap, aw)
@@ -325,6 +401,8 @@ def p_eval_reuse(cmds, ctxs, ap=0, aw=0):
                     f"(1 accept, 0 reject, 2 special case)")
         if want != 2 and got != want:
             return f"call {k} (context {c}): Script.evaluate gives {got}, consensus {want}"
+        if want != 2 and exc:
+            return f"call {k} (context {c}): Script.evaluate raises {exc} on a script that consensus rejects: {RAISES}"
     return None
 
 
@@ -334,10 +412,12 @@ def p_eval_seq(items):
     for k, it in enumerate(list(items) + list(reversed(items))):
         cmds, lt, sq, ver, ap, aw = it
         want = spec("spec_eval", cmds, lt, sq, ver, ap, aw)
-        got = run_evaluate(cmds, lt, sq, ver, ap, aw)
+        got, exc = eval_outcome(cmds, lt, sq, ver, ap, aw)
         if want != 2 and got != want:
             return (f"evaluation {k} of the sequence: Script.evaluate gives {got}, consensus {want} "
                     f"(the same program alone: {run_evaluate(cmds, lt, sq, ver, ap, aw)})")
+        if want != 2 and exc:
+            return f"evaluation {k} of the sequence: Script.evaluate raises {exc} where consensus rejects: {RAISES}"
     return None
 
 
@@ -352,31 +432,199 @@ def p_op_seq(items):
         if want == 2:
             continue
         _set_ctx(tx, lt, sq, ver)
-        stack, a = list(st), list(alt)
-        try:
-            got = [stack, a] if call_op(o, stack, a, tx) else None
-        except Exception:  # noqa
-            got = None
+        got, exc = op_outcome(o, st, alt, tx)
         if want is ERR or want == ERR:
             if got is not None:
                 return f"call {k}: op code {o} succeeds on {[x.hex() for x in st]} where consensus fails"
+            if exc:
+                return f"call {k}: op code {o} raises {exc} on {[x.hex() for x in st]} where consensus fails: {RAISES}"
         elif got != want:
             return (f"call {k}: op code {o} on {[x.hex() for x in st]} in context {(lt, sq, ver)} gives "
                     f"{None if got is None else [x.hex() for x in got[0]]}, consensus {[x.hex() for x in want[0]]}")
     return None
 
 
+def p_minimal_push(n):
+    """encode_minimal_num / number_to_op_code / op_code_to_number / number_to_op_code_byte: -1..16 are the op codes
+    OP_1NEGATE, OP_0, OP_1..OP_16 (whose execution pushes exactly the serialisation of n), every other number is
+    the data push of its minimal serialisation"""
+    want = ref_minimal_push(n)
+    got = bop.encode_minimal_num(n)
+    if type(got) is not type(want) or got != want:
+        return f"encode_minimal_num({n}) = {got!r}, the minimal push is {want!r}"
+    if isinstance(want, int):
+        st = []
+        if bop.OP_CODE_FUNCTIONS[got](st) is not True or st != [ref_encode_num(n)]:
+            return f"op code {got} chosen for {n} leaves {[x.hex() for x in st]}"
+        if bop.number_to_op_code(n) != want or bop.number_to_op_code_byte(n) != bytes([want]):
+            return f"number_to_op_code({n}) / number_to_op_code_byte({n}) are not {want}"
+        if bop.op_code_to_number(want) != n:
+            return f"op_code_to_number({want}) = {bop.op_code_to_number(want)}, not {n}"
+    else:
+        for f in (bop.number_to_op_code, bop.number_to_op_code_byte):
+            try:
+                r = f(n)
+            except ValueError:
+                continue
+            return f"{f.__name__}({n}) returns {r!r}: there is no op code for this number"
+    return None
+
+
+def p_op_code_to_number(o):
+    """op_code_to_number inverts number_to_op_code and rejects every other op code (80 = OP_RESERVED is read as 0
+    by the library's list of accepted codes: not asserted either way)"""
+    small = {0: 0, 79: -1}
+    small.update({80 + k: k for k in range(1, 17)})
+    if o == 80:
+        return None
+    try:
+        r = bop.op_code_to_number(o)
+    except ValueError:
+        return f"op_code_to_number({o}) raises, the op code pushes {small[o]}" if o in small else None
+    if o not in small:
+        return f"op_code_to_number({o}) = {r!r}: {o} is not a small-number op code"
+    return None if r == small[o] else f"op_code_to_number({o}) = {r!r}, not {small[o]}"
+
+
+U32 = 2 ** 32 - 1
+
+
+def _expect(desc, fn, want):
+    """fn() == want, where want may be the class ValueError (fn must raise it)"""
+    try:
+        got = fn()
+    except ValueError:
+        return None if want is ValueError else f"{desc} raises ValueError, expected {want!r}"
+    if want is ValueError:
+        return f"{desc} = {got!r}, expected ValueError"
+    if isinstance(want, bool):
+        return None if bool(got) == want else f"{desc} = {got!r}, expected {want}"
+    return None if (got == want and (got is None) == (want is None)) else f"{desc} = {got!r}, expected {want!r}"
+
+
+def p_timelock_api(a, b):
+    """the comparison rules of buidl.timelock.Locktime / Sequence against BIP65 / BIP68 / BIP112 written out here:
+    domain 0..2^32-1, height/time type at 500000000, disable flag bit 31, type flag bit 22, 16-bit value;
+    `<` between two lock times of different type raises ValueError, against a plain int it is the int order"""
+    from io import BytesIO
+    from buidl.timelock import Locktime, Sequence
+    checks = [("Locktime()", lambda: int(Locktime()), 0), ("Sequence()", lambda: int(Sequence()), U32)]
+    for cls in (Locktime, Sequence):
+        for n in (a, b):
+            ok = 0 <= n <= U32
+            checks.append((f"{cls.__name__}({n})", lambda cls=cls, n=n: (int(cls(n)), type(cls(n)) is cls),
+                           (n, True) if ok else ValueError))
+            if ok:
+                checks.append((f"{cls.__name__}({n}).serialize()", lambda cls=cls, n=n: cls(n).serialize(),
+                               n.to_bytes(4, "little")))
+                checks.append((f"{cls.__name__}.parse of {n}",
+                               lambda cls=cls, n=n: int(cls.parse(BytesIO(n.to_bytes(4, "little") + b"zz"))), n))
+    for d in checks:
+        m = _expect(*d)
+        if m:
+            return m
+    if not (0 <= a <= U32 and 0 <= b <= U32):
+        return None
+    la, lb, sa, sb = Locktime(a), Locktime(b), Sequence(a), Sequence(b)
+    lim = 500000000
+    lcomp = (a < lim) == (b < lim)
+    rel_a, rel_b = a >> 31 == 0, b >> 31 == 0
+    time_a, time_b = rel_a and (a >> 22) & 1 == 1, rel_b and (b >> 22) & 1 == 1
+    blk_a, blk_b = rel_a and not time_a, rel_b and not time_b
+    scomp = (blk_a and blk_b) or (time_a and time_b)
+    checks = [
+        (f"Locktime({a}).is_comparable({b})", lambda: la.is_comparable(lb), lcomp),
+        (f"Locktime({a}) < Locktime({b})", lambda: la < lb, (a < b) if lcomp else ValueError),
+        (f"Locktime({a}) < int {b}", lambda: la < b, a < b),
+        (f"Locktime({a}).block_height()", lambda: la.block_height(), a if a < lim else None),
+        (f"Locktime({a}).mtp()", lambda: la.mtp(), a if a >= lim else None),
+        (f"Sequence({a}).is_relative()", lambda: sa.is_relative(), rel_a),
+        (f"Sequence({a}).is_relative_time()", lambda: sa.is_relative_time(), time_a),
+        (f"Sequence({a}).is_relative_block()", lambda: sa.is_relative_block(), blk_a),
+        (f"Sequence({a}).is_max()", lambda: sa.is_max(), a == U32),
+        (f"Sequence({a}).is_rbf_able()", lambda: sa.is_rbf_able(), a < U32),
+        (f"Sequence({a}).relative_blocks()", lambda: sa.relative_blocks(), (a & 0xFFFF) if blk_a else None),
+        (f"Sequence({a}).relative_time()", lambda: sa.relative_time(), ((a & 0xFFFF) * 512) if time_a else None),
+        (f"Sequence({a}).is_comparable({b})", lambda: sa.is_comparable(sb), scomp),
+        (f"Sequence({a}) < Sequence({b})", lambda: sa < sb, ((a & 0xFFFF) < (b & 0xFFFF)) if scomp else ValueError),
+        (f"Sequence({a}) < int {b}", lambda: sa < b, a < b),
+        # BIP68 constructors: a relative time is counted in units of 512 seconds, a relative height as it is
+        (f"Sequence.from_relative_time({a >> 7})", lambda: int(Sequence.from_relative_time(a >> 7)),
+         (1 << 22) | (a >> 16)),
+        (f"Sequence.from_relative_time({a >> 7}).relative_time()",
+         lambda: Sequence.from_relative_time(a >> 7).relative_time(), (a >> 16) << 9),
+        (f"Sequence.from_relative_blocks({a & 0xFFFF})", lambda: int(Sequence.from_relative_blocks(a & 0xFFFF)), a & 0xFFFF),
+    ]
+    for d in checks:
+        m = _expect(*d)
+        if m:
+            return m
+    return None
+
+
+# BIP342: the op codes that make a tapscript succeed unconditionally
+OP_SUCCESS = {80, 98} | set(range(126, 130)) | set(range(131, 135)) | {137, 138, 141, 142} | set(range(149, 154)) \
+    | set(range(187, 255))
+
+
+def p_tables():
+    """the two dispatch tables: the legacy table holds exactly the implemented op codes; the tapscript table maps
+    every one of them to the SAME function except the signature op codes (172/173 Schnorr variants, 174/175
+    disabled = fail), and the BIP342 OP_SUCCESS codes to a function that succeeds without touching the stack"""
+    leg, tap = bop.OP_CODE_FUNCTIONS, bop.TAPROOT_OP_CODE_FUNCTIONS
+    want = set(PLAIN_OPS) | {99, 100, 172, 173, 174, 175}
+    if set(leg) != want:
+        return f"OP_CODE_FUNCTIONS has keys {sorted(set(leg) ^ want)} too many / missing"
+    if set(tap) != want | OP_SUCCESS | {186}:
+        return f"TAPROOT_OP_CODE_FUNCTIONS has keys {sorted(set(tap) ^ (want | OP_SUCCESS | {186}))} too many / missing"
+    for o in sorted(want - {172, 173, 174, 175}):
+        if tap[o] is not leg[o]:
+            return f"tapscript table: op code {o} is {tap[o].__name__}, the legacy table has {leg[o].__name__}"
+    for o in (174, 175):
+        for st in ([], [b"\x01"], [b"", b"", b""]):
+            if tap[o](list(st)):
+                return f"tapscript table: disabled op code {o} succeeds"
+    for o in sorted(OP_SUCCESS):
+        for st in ([], [b""], [b"\x01", b"\x02"]):
+            st2 = list(st)
+            if tap[o](st2) is not True or st2 != st:
+                return f"tapscript table: OP_SUCCESS{o} does not succeed / touches the stack"
+    names = bop.OP_CODE_NAMES
+    for o, nm in ((0, "OP_0"), (79, "OP_1NEGATE"), (81, "OP_1"), (96, "OP_16"), (99, "OP_IF"), (100, "OP_NOTIF"),
+                  (103, "OP_ELSE"), (104, "OP_ENDIF"), (113, "OP_2ROT"), (122, "OP_ROLL"), (135, "OP_EQUAL"),
+                  (165, "OP_WITHIN"), (170, "OP_HASH256"), (177, "OP_CHECKLOCKTIMEVERIFY"),
+                  (178, "OP_CHECKSEQUENCEVERIFY")):
+        if names.get(o) != nm:
+            return f"OP_CODE_NAMES[{o}] = {names.get(o)!r}, not {nm}"
+    return None
+
+
 PROPS = {"codec_int": p_codec_int, "codec_bytes": p_codec_bytes, "op": p_op, "eval": p_eval,
-         "eval_reuse": p_eval_reuse, "eval_seq": p_eval_seq, "op_seq": p_op_seq}
+         "eval_reuse": p_eval_reuse, "eval_seq": p_eval_seq, "op_seq": p_op_seq, "minimal_push": p_minimal_push,
+         "op_code_to_number": p_op_code_to_number, "timelock_api": p_timelock_api, "tables": p_tables,
+         "eval_defaults": p_eval_defaults}
+
+
+def _impl_is_model(fn, args):
+    from vp.sexp import canon, ERR
+    try:
+        got = canon(IMPL[fn](*args))
+    except ImplTimeout:
+        raise
+    except Exception:  # noqa
+        got = ERR
+    return got == spec(fn, *args)
 
 
 def classify(v):
+    """K-C07-2rot: a disagreement with consensus on OP_2ROT counts as the known finding only while the library still
+    does exactly what the Coq model of today's code does (copy instead of move); any other behaviour of 2ROT is new"""
     if v.get("kind") != "prop":
         return None
     if v["name"] == "op" and v["args"][0] == 113:
-        return "K-C07-2rot"
+        return "K-C07-2rot" if _impl_is_model("op", v["args"]) else None
     if v["name"] == "eval" and any(isinstance(c, int) and c == 113 for c in v["args"][0]):
-        return "K-C07-2rot"
+        return "K-C07-2rot" if _impl_is_model("evaluate", v["args"]) else None
     return None
 
 
@@ -498,7 +746,7 @@ class ProgGen:
                 budget -= 1
             elif k < 0.44 and depth >= 1:
                 # PICK / ROLL with a sensible index
-                out.append(bop.encode_minimal_num(r.randrange(0, depth + 1)) if r.random() < 0.9
+                out.append(ref_minimal_push(r.randrange(0, depth + 1)) if r.random() < 0.9
                            else ref_encode_num(r.choice([-1, depth + 3])))
                 out.append(r.choice([121, 122]))
                 self.left -= 2
@@ -561,6 +809,8 @@ def mutate(r, cmds):
 def both_eval(cmds, c, ap=0, aw=0):
     yield ("corr", "evaluate", [cmds, c[0], c[1], c[2], ap, aw])
     yield ("prop", "eval", [cmds, c[0], c[1], c[2], ap, aw])
+    if ap and aw:
+        yield ("prop", "eval_defaults", [cmds, c[0], c[1], c[2]])
 
 
 def no_2rot(cmds):
@@ -662,6 +912,13 @@ def generate(ctx):
         ctx.label("codec/random-int")
         yield ("corr", "encode_num", [n])
         yield ("prop", "codec_int", [n])
+    for n in list(range(-4, 21)) + [-17, 127, 128, -128, 255, 256, 2 ** 31 - 1, -(2 ** 31) + 1, 2 ** 31]:
+        ctx.label("codec/minimal-push")
+        yield ("prop", "minimal_push", [n])
+    for o in list(range(-2, 100)) + [127, 128, 255, 256]:
+        ctx.label("codec/op-code-to-number")
+        yield ("prop", "op_code_to_number", [o])
+    yield ("prop", "tables", [])
     edge = [0x00, 0x01, 0x7F, 0x80, 0x81, 0xFF]
     strs = [b""] + [bytes([a]) for a in range(256)]
     strs += [bytes(t) for k in (2, 3) for t in itertools.product(edge, repeat=k)]
@@ -765,6 +1022,20 @@ def generate(ctx):
     for o in (177, 178):
         yield from both_op(o, [], [], (0, 0, 2))
 
+    # the Locktime / Sequence classes themselves: every pair over the boundary values of both types
+    vals = sorted(set(LOCKTIMES + SEQUENCES + OPERANDS + [-2, 2 ** 32, 2 ** 32 + 1, 0xFFFE, (1 << 22) | 0xFFFE, 511 << 7, 512 << 7, 513 << 7,
+                                                           (1023 << 7) | 5, 1024 << 7,
+                                                           (1 << 31) - 1, (1 << 31) | (1 << 22) | 0xFFFF]))
+    for a in vals:
+        for b in vals:
+            ctx.label("timelock/class-api-grid")
+            yield ("prop", "timelock_api", [a, b])
+    for _ in range(ctx.n(300, 6000)):
+        a = r.choice(vals) if r.random() < 0.3 else r.randrange(2 ** 32)
+        b = r.choice([a, a ^ (1 << 22), a ^ (1 << 31), a ^ 1, (a & ~0xFFFF) | r.getrandbits(16), r.randrange(2 ** 32)])
+        ctx.label("timelock/class-api-random")
+        yield ("prop", "timelock_api", [a, b])
+
     # ------------------------------------------------ IF / NOTIF splicing alone (model vs implementation)
     for _ in range(ctx.n(1500, 30000)):
         g = ProgGen(r)
@@ -803,6 +1074,20 @@ def generate(ctx):
         ctx.label("program/fixed")
         for ap, aw in ((0, 0), (1, 1), (1, 0), (0, 1)):
             yield from both_eval(cmds, (0, 0, 2), ap, aw)
+    # every op code at every stack depth from 0 up to its arity (one item short of it: the script must be REJECTED
+    # by returning False), as a whole script, with small numbers and with arbitrary data on the stack
+    for o in PLAIN_OPS + [99, 100]:
+        if o == 113:
+            continue
+        tail = [104] if o in (99, 100) else []
+        for d in range(0, ARITY.get(o, 1 if o in (99, 100) else 0) + 2):
+            for fill in ([81] * d, [82, 83, 84, 85, 86, 87, 88][:d], [b"\x07" * (j + 1) for j in range(d)]):
+                ctx.label("program/underflow-per-opcode")
+                yield from both_eval(fill + [o] + tail, (5, 5, 2))
+                yield from both_eval(fill + [o] + tail + [116], (5, 5, 2))
+        ctx.label("program/underflow-per-opcode")
+        yield from both_eval([o] + tail, (0, 0, 2), 1, 1)
+        yield from both_eval([81, 107, o] + tail + [108], (0, 0, 2))
     for i in range(ctx.n(4000, 120000)):
         g = ProgGen(r, allow_2rot=(i % 10 == 0), timelocks=(i % 3 == 0))
         cmds = g.program(r.randrange(1, 41))
